@@ -32,6 +32,10 @@ use ciphercore_base::mpc::mpc_compiler::{
     compile_context, prepare_context, prepare_for_mpc_evaluation, uniquify_prf_id, IOStatus,
 };
 use ciphercore_base::optimizer::optimize::optimize_context;
+use ciphercore_base::random::PRNG;
+use ciphercore_base::typed_value::TypedValue;
+use ciphercore_base::typed_value_secret_shared::replicated_shares::ReplicatedShares;
+use ciphercore_base::typed_value_secret_shared::TypedValueSecretShared;
 use serde_json::{json, Map, Value as J};
 use std::collections::HashMap;
 use std::panic::{catch_unwind, AssertUnwindSafe};
@@ -635,6 +639,42 @@ fn run_party_eval(c: &Context, e: &J) -> R<J> {
     Ok(json!({"parties": parties, "sends": sends}))
 }
 
+// ---------------------------------------------------------------- secret sharing of typed values (C14 supporting family)
+fn run_sharing(e: &J) -> R<J> {
+    let t: Type = serde_json::from_value(e["type"].clone()).map_err(es)?;
+    let v = json_to_val(&e["value"])?;
+    let seed = parse_seed(e.get("seed"))?;
+    let tv = TypedValue::new(t.clone(), v).map_err(es)?;
+    let mut out = Map::new();
+    let mut prng = PRNG::new(seed).map_err(es)?;
+    let shared = tv.secret_share(&mut prng).map_err(es)?;
+    out.insert("secret_share".into(), val_to_json(&shared.value));
+    let rev = shared.secret_share_reveal().map_err(es)?;
+    out.insert("reveal".into(), val_to_json(&rev.value));
+    out.insert("reveal_type_ok".into(), J::Bool(rev.t == t));
+    let mut prng = PRNG::new(seed).map_err(es)?;
+    let local = tv.get_local_shares_for_each_party(&mut prng).map_err(es)?;
+    out.insert("local".into(), J::Array(local.iter().map(|x| val_to_json(&x.value)).collect()));
+    let mut prng = PRNG::new(seed).map_err(es)?;
+    let rs = ReplicatedShares::secret_share_for_parties(tv.clone(), &mut prng).map_err(es)?;
+    let mut tuples = vec![];
+    for r in rs.iter() {
+        tuples.push(val_to_json(&r.to_tuple().map_err(es)?.value));
+    }
+    out.insert("rs_parties".into(), J::Array(tuples));
+    let mut prng = PRNG::new(seed).map_err(es)?;
+    let rl = ReplicatedShares::secret_share_for_local_evaluation(tv.clone(), &mut prng).map_err(es)?;
+    out.insert("rs_local_reveal".into(), val_to_json(&rl.reveal().map_err(es)?.value));
+    if let Type::Array(_, st) = &t {
+        // mpc::utils::share_vector on the flattened elements
+        let data = tv.value.to_flattened_array_u128(t.clone()).map_err(es)?;
+        let mut prng = PRNG::new(seed).map_err(es)?;
+        let sv = ciphercore_base::mpc::utils::share_vector(&mut prng, &data, *st).map_err(es)?;
+        out.insert("share_vector".into(), J::Array(sv.iter().map(val_to_json).collect()));
+    }
+    Ok(J::Object(out))
+}
+
 // ---------------------------------------------------------------- job
 fn run_job(job: &J) -> J {
     let mut res = Map::new();
@@ -741,6 +781,17 @@ fn run_job(job: &J) -> J {
             out.push(r);
         }
         res.insert("party_evals".into(), J::Array(out));
+    }
+    if let Some(sh) = job.get("sharings").and_then(|x| x.as_array()) {
+        let mut out = vec![];
+        for e in sh {
+            out.push(match catch_unwind(AssertUnwindSafe(|| run_sharing(e))) {
+                Ok(Ok(j)) => j,
+                Ok(Err(s)) => json!({"error": s}),
+                Err(_) => json!({"error": "PANIC", "panic": true}),
+            });
+        }
+        res.insert("sharings".into(), J::Array(out));
     }
     res.insert("wall_ms".into(), json!(t0.elapsed().as_millis() as u64));
     if let Some(id) = job.get("id") {
